@@ -53,6 +53,7 @@ PROFILES = {
     "mixsim": prof("MC_Focus", "MovesMix", 7, srcs=[1, 6, 7], simulate=True, sim_depth=16, num=20000, invariants=[], properties=[], timeout=900),
     "subq4": prof("MC_Focus", "MovesSubq", 4, srcs=[1]),
     "subq5": prof("MC_Focus", "MovesSubq", 5, srcs=[1]),
+    "hidsub4": prof("MC_Focus", "MovesHidSub", 4, srcs=[1, 6]),
     "tall2": prof("MC_Focus", "MovesTall", 2, srcs=[12]),
     "ty2": prof("MC_Focus", "MovesTy", 2, srcs=[1, 8, 4, 13]),
     "err2": prof("MC_Focus", "MovesErr", 2, srcs=[1, 4]),
@@ -74,7 +75,7 @@ CHECKS = {
         level="model_checking",
         clauses=CROSS | {"accept", "export-error"},
         phases=dict(quick=[dict(profile="core2"), dict(profile="agg3"), dict(profile="wins3"), dict(profile="win2"),
-                           dict(profile="join2"), dict(profile="joins3"), dict(profile="union2"), dict(profile="tall2")],
+                           dict(profile="join2"), dict(profile="joins3"), dict(profile="union2"), dict(profile="tall2"), dict(profile="hidsub4")],
                     thorough=[dict(profile="core3"), dict(profile="agg3"), dict(profile="win3"), dict(profile="wins4"),
                               dict(profile="join3"), dict(profile="joins4"), dict(profile="union3"), dict(profile="tall2")]),
     ),
@@ -131,7 +132,7 @@ CHECKS = {
     "C09": dict(
         level="model_checking",
         clauses=GEN_CLAUSES_SPEC | {"errclass", "getname"},
-        phases=dict(quick=[dict(profile="ref3"), dict(profile="joinh4")], thorough=[dict(profile="ref3"), dict(profile="ref4"), dict(profile="joinh4")]),
+        phases=dict(quick=[dict(profile="ref3"), dict(profile="joinh4"), dict(profile="hidsub4")], thorough=[dict(profile="ref3"), dict(profile="ref4"), dict(profile="joinh4")]),
     ),
     "C12": dict(
         level="model_checking",
@@ -202,7 +203,7 @@ CHECKS = {
         level="model_checking",
         clauses={"meta", "trace-names", "trace-group", "trace-export-columns", "trace-unknown-input", "trace-sql-limit",
                  "trace-sql-filtered", "trace-sql-grouped"},
-        phases=dict(quick=[dict(profile="core2"), dict(profile="join2"), dict(profile="union2"),
+        phases=dict(quick=[dict(profile="core2"), dict(profile="join2"), dict(profile="union2"), dict(profile="hidsub4"),
                            dict(kind="tracemeta", profiles=[("core2", 400), ("join2", 300), ("agg3", 300)])],
                     thorough=[dict(profile="core3"), dict(profile="join3"), dict(profile="union3"), dict(profile="agg3"), dict(profile="reroot3"),
                               dict(kind="tracemeta", profiles=[("core3", 3000), ("join3", 3000), ("agg3", 2000), ("wins3", 2000), ("reroot3", 2000)])]),
